@@ -17,6 +17,7 @@ linearity in y, polynomial reproduction, residuals |LL^T-A|, |Ax-b|, leading-min
 "status code, never an exception / non-finite coefficient" for every ill-posed class.
 """
 import math
+import os
 import traceback
 import copy
 import numpy as np
@@ -38,8 +39,15 @@ THEOREMS = [P + t for t in (
     'ldlt_factor_spec', 'ldlt_factor_iff_pivots', 'ldlt_factor_iff_pos_def', 'chol_factor_iff_pos_def', 'ldlt_solve_spec', 'ldlt_solves',
     'LdltContract.solves', 'ldlt_contract_kernel', 'chol_contract_kernel', 'cholesky_band_ldlt', 'cholesky_band_ldlt_iff_pos_def',
     'cholesky_solves_ldlt', 'hsolve_ldlt', 'fit_is_optimum_ldlt', 'fit_is_optimum_obj_ldlt', 'fit_reproduces_poly_ldlt',
-    'fit_is_optimum_chol', 'fit_ldlt_status0_pivots', 'fit_ldlt_status0_pos_def')]
-RULE = ('fit cases = (order 1..6) x (sorted abscissae: uniform/random/clustered/duplicated, several scales) x (breakpoints from '
+    'fit_is_optimum_chol', 'fit_ldlt_status0_pivots', 'fit_ldlt_status0_pos_def',
+    # extension round 3: x2 / npoly >= 1 (Model/BSplineFit2.lean): the npoly-blocked assembly is the normal system of the tensor basis
+    'assembleP_one', 'assembleP_is_normal', 'tensor_design', 'assembleP_is_normal_tensor', 'fit2_optimum_design', 'fit2_optimum_solves',
+    'tensor_row_is_spline', 'fit2_system_solved_ldlt', 'fit2_solved_is_optimum_partial', 'maskpointsP_status')]
+RULE = ('2-D cases (streams action2d / fit2d / fit2q, harness/props/c09_2d.py) = (order 1..4) x (npoly 2..4) x (funcname poly, poly1, chebyshev, '
+        'legendre) x (sorted x, random x2 on three scales, xmin/xmax = data range / default 0..1 / wider) x (y from the tensor space, smooth, '
+        'random) x (invvar as in 1-D) x (masked breakpoints, gaps, zero-weight stretches, constant x2) + 8 fixed cases; value(x, x2) is asked at '
+        'new unsorted points after every successful fit; the first 8 (thorough 150) well-posed cases with <= 45 points and <= 16 unknowns are '
+        'run again through the model in exact rational arithmetic. 1-D: fit cases = (order 1..6) x (sorted abscissae: uniform/random/clustered/duplicated, several scales) x (breakpoints from '
         'bkspace/nbkpts/everyn/explicit bkpt through the real constructor) x (y: polynomial below/at the order, smooth+noise, random) x '
         '(invvar: ones, random positive, with zeros, zero over a stretch, all zero); ill-posed cases = gaps wider than the spacing, '
         'emptied segments, fewer points than coefficients, masked breakpoints, refitted while the status is -1; chol cases = banded '
@@ -60,7 +68,10 @@ TRUSTED = ['hand-written model lean/PydlVerif/Model/BSplineFit.lean (on Model/BS
            'core Rat arithmetic is the field Q (the theorems are stated for the field interpretation fieldScalar K of the Scalar operations); '
            'the result is in addition checked on every case against exact Gaussian elimination in Python fractions.Fraction on an independently '
            'built design matrix; the fallback loop of cholesky_band (needs sqrt) is never run exactly']
-ASSUMPTIONS = ['x2=None, npoly=1 (1-D B-splines); xdata sorted, finite float64; ydata finite; invvar >= 0 finite',
+ASSUMPTIONS = ['1-D streams: x2=None, npoly=1; 2-D streams: npoly 2..4, x2 finite, xmin < xmax, funcname one of poly/poly1/chebyshev/legendre; '
+               'xdata sorted, finite float64; ydata finite; invvar >= 0 finite',
+               'scipy.special.legendre(k)/chebyt(k) deliver the coefficients of P_k/T_k (the model uses the three-term recurrence on '
+               'coefficient lists and Horner evaluation; compared within tolerance, and exactly against Fractions in stream fit2q)',
                'the first nord breakpoints are never masked (true for every mask that maskpoints produces)',
                '"every segment supported by data" is taken as: every diagonal entry of A^T W A exceeds 1000 x the code threshold '
                '1e-10*sum(invvar)/n and cond(A^T W A) < 1e8; problems between that and "some column has no weighted data at all" '
@@ -863,6 +874,8 @@ def run(ctx):
     chols.append({'stream': 'chol', 'kind': 'd7', 'bw': 2, 'n': 5, 'l': [fb(r) for r in l], 'mininf': core.f2b(0.0), 'b': fb([1, 2, 3, 4, 5, 0, 0])})
     run_chol(ctx, chols)
     run_fitq(ctx, fitq_select(fits, ctx.n(60, 1500)))
+    from harness.props import c09_2d
+    c09_2d.run(ctx, use_model=not os.environ.get('C09_2D_NOMODEL'))
     if ctx.disagreements:
         directed_search(ctx)
 
@@ -904,11 +917,31 @@ def replay(ctx, case):
         run_chol(ctx, [case])
     elif case.get('stream') == 'fitq':
         run_fitq(ctx, [case])
+    elif case.get('stream') == 'fit2d':
+        from harness.props import c09_2d
+        c09_2d.run_fit2(ctx, [case])
+    elif case.get('stream') == 'fit2q':
+        from harness.props import c09_2d
+        c09_2d.run_fit2q(ctx, [dict(case, stream='fit2d')])
     else:
         run(ctx)
 
 
-LEVEL_TEXT = ('Machine-checked Lean 4 theorems over an executable model of bspline.fit / maskpoints / cholesky_band / cholesky_solve (1-D, '
+LEVEL_TEXT = ('Extension 3 (x2 / npoly >= 1 now INSIDE the model, Model/BSplineFit2.lean: x2norm, the funcname expansion poly/poly1/chebyshev/legendre, '
+              'the tensor action matrix, the npoly-blocked assembly itop = k*npoly, maskpoints with err//npoly, the coefficient store/read-back '
+              'with the polynomial index fastest, fit2, value2): proved for EVERY npoly, order, size and ordered field - assembleP_is_normal (the '
+              'blocked bi/bo scatter builds exactly the lower band of A^T W A and A^T W y of the blocked design matrix), tensor_design (for the '
+              'action matrix action(x, x2) builds, column j*npoly+l of that design matrix is B_j(x_p)*P_l(x2_p)), assembleP_is_normal_tensor, '
+              'assembleP_one (npoly = 1 gives the 1-D assembly), fit2_optimum_solves (a vector solving the assembled banded system minimises '
+              'sum invvar*(y - sum_j sum_l c_jl B_j(x) P_l(x2))^2 over ALL coefficient vectors), tensor_row_is_spline (that model value is '
+              'sum_l P_l(x2) * spline_l(x) with the C08 spline), fit2_system_solved_ldlt (with the proved L D L^T kernels, a factor answered by '
+              'cholesky_band on the system normalSystemP materialises means cholesky_solve returns a solution of it - no solver hypothesis), '
+              'fit2_solved_is_optimum_partial (their composition), maskpointsP_status. Tied to the code by streams action2d (oracle: independent '
+              'tensor basis from numpy.polynomial + scipy design matrix), fit2d (real fit/value with npoly 2-4 and all four funcnames against the '
+              'model op fit2 - status, mask exact, coefficients, yfit, value at new points, alpha/beta against an independent T^T W T - and against '
+              'dense lstsq over the tensor basis) and fit2q (model in exact rationals = exact Gaussian elimination in Fractions). Four defects of '
+              'the 2-D path were found and fixed (every 2-D fit raised). '
+              'Machine-checked Lean 4 theorems over an executable model of bspline.fit / maskpoints / cholesky_band / cholesky_solve (1-D, '
               'npoly=1), for all knots, orders, data and weights over any ordered field: the bi/bo flat-index scatter of fit builds exactly '
               'the lower band of A^T W A and A^T W y (assemble_is_normal); hence, under the stated contract of the LAPACK kernels (L L^T = A, '
               'A x = b - a hypothesis), a status-0 fit satisfies the normal equations and minimises sum invvar*(y - spline(x))^2 over ALL '
@@ -956,7 +989,7 @@ LEVEL_NOTE = ('Partial: LAPACK itself (cholesky_banded / cho_solve_banded as cal
               'lower/upper keep it. Polynomial reproduction is now proved for every degree < nord (Marsden), for knots non-decreasing with '
               't[nord-1] < t[nord] and points inside the breakpoint range. hsolve speaks of alpha/beta as the assemble functions, the kernel call '
               'gets the arrays normalSystem materialises from them; no end-to-end instance of fit_is_optimum is evaluated inside Lean (the field '
-              'interpretation is noncomputable). x2 / npoly > 1 are outside the statement. Theorems are over exact ordered fields: rounding, the '
+              'interpretation is noncomputable). 2-D path: the function-level statement about fit2 itself (status 0 => the stored coeff2 minimises the tensor objective) is NOT proved - fit2_solved_is_optimum_partial stops at the kernel call on normalSystemP; missing are the unfolding of fit2 to its status-0 branch with putGood2 / goodcoeff read-back, the list-level identification of the rows BS2.action returns with tensorAct of the bsplvn rows and polyBasis, and Rows from rows_action for the 2-D action (same lower/upper as 1-D); these are compared on every run (fit2d, fit2q). polyBasis is not proved to be the Legendre/Chebyshev polynomials (tensor theorems hold for any P). Theorems are over exact ordered fields: rounding, the '
               '1e-10 influence threshold near equality and near-singular systems (class "marginal": only no-exception / finite output is '
               'required) are outside them. Exact (Rat) run: only for small well-posed problems; the kernel parameter of the Rat interpretation is the '
               'proved banded L D L^T pair kernelsLdlt; the fallback loop of cholesky_band (needs sqrt) is never run exactly.')
